@@ -314,7 +314,7 @@ func c20(c *Ctx) {
 		}
 		u.refused = ad.Refused
 		rj, _ := spec.Request([]*spec.File{f}, nil, "format=json")
-		res := c.TB.Run("openapiv3", rj, plugin.RunOpt{})
+		res := lab.RunDecoy(c.TB, "openapiv3", rj, plugin.RunOpt{})
 		c.R.Eval(1)
 		if res.OK() {
 			for n, ct := range res.Files {
